@@ -150,12 +150,14 @@ def run_case(case, rep=None, count_only=False):
                 deadline = time.monotonic() + 8
                 while time.monotonic() < deadline and not flag['done']:
                     if any(e['k'] == 'inj-fire' for e in events.read_events(ctl)[pre:]):
-                        for _ in range(2):
+                        for i in range(8):
+                            # two Ctrl-C; further ones only if the run still has not ended a second later (CPython
+                            # drops a KeyboardInterrupt that happens to be raised inside a finalizer or weakref callback)
                             if flag['done']:
                                 return
                             flag['sent'] += 1
                             os.kill(os.getpid(), signal.SIGINT)
-                            time.sleep(0.3)
+                            time.sleep(0.3 if i < 1 else 1.0)
                         return
                     time.sleep(0.01)
             th = threading.Thread(target=interrupter, daemon=True)
